@@ -55,7 +55,9 @@
 //!
 //! Oracle = the property itself: every outcome must be ok / err (no panic, abort, hang), and the bytes
 //! requested from the allocator while parsing / verifying (peak growth, counted by a `#[global_allocator]`)
-//! must stay below 64 MiB and below 1000 x |input| + 1 MiB. Workers run under a 2 GiB address-space cap,
+//! must stay below 64 MiB and below 1000 x |input| + 1 MiB.  Every byte string is parsed four more ways - `Proof::read_from`
+//! over `std::io::Cursor` and over `ReadAdapter` with 1-, 3-, 300-byte and whole-input reads - under the same judgement,
+//! and all readers must agree on the outcome kind (`c06.parse.reader-diff`). Workers run under a 2 GiB address-space cap,
 //! so runaway allocation aborts the worker (outcome `abort`), not the machine.
 #![allow(dead_code, unused_variables, unused_imports, unused_mut, clippy::too_many_arguments)]
 use std::alloc::{GlobalAlloc, Layout, System};
@@ -1135,10 +1137,12 @@ fn exec_mut(t: &[&str]) -> Outcome {
     // (HARDENING 8, 6) a sample of the cases additionally goes through the other `ByteReader`s the library offers
     // (`std::io::Cursor`, `ReadAdapter` over 1-, 3- and 300-byte reads), and is followed by a valid proof in the
     // same process (nothing a failed case leaves behind may change the next verdict)
+    // (HARDENING 8, 6; extended after seeded change C06-9, which only misbehaved behind `ReadAdapter`) EVERY case
+    // additionally goes through the other `ByteReader`s the library offers: `Proof::read_from` over `std::io::Cursor`
+    // and over `ReadAdapter` fed by 1-, 3-, 300-byte and whole-input reads - same panic / allocation judgement, and the
+    // outcome kind must be that of `Proof::from_bytes` (`SliceReader`)
     let h = bytes.iter().fold(0xcbf29ce484222325u64, |h, b| (h ^ *b as u64).wrapping_mul(0x100000001b3));
-    if h % 8 == 0 {
-        other_readers(&bytes, &mut c);
-    }
+    other_readers(&bytes, &mut c);
     if h % 64 == 1 && !b.cfg.lenient {
         let again = run_case(&b.bytes, Some(&b), "c");
         if again.parse != "ok" || again.front != "pass" || again.deep != "ok" {
@@ -1188,7 +1192,8 @@ fn other_readers(bytes: &[u8], c: &mut CaseOut) {
         }
     };
     run("Cursor", &mut || Proof::read_from(&mut std::io::Cursor::new(bytes)));
-    for chunk in [1usize, 3, 300] {
+    // byte-at-a-time, small, medium and whole-input reads of the underlying `std::io::Read`
+    for chunk in [1usize, 3, 300, bytes.len().max(1)] {
         run(&format!("ReadAdapter({})", chunk), &mut || {
             let mut src = Chunked { data: bytes, pos: 0, chunk };
             let mut ad = ReadAdapter::new(&mut src);
@@ -1210,7 +1215,9 @@ fn exec_raw(t: &[&str]) -> Outcome {
         return Outcome::ok("bad-op");
     }
     let bytes = unhex(t[12]);
-    into_outcome(run_case(&bytes, Some(&vb), "c"), false)
+    let mut c = run_case(&bytes, Some(&vb), "c");
+    other_readers(&bytes, &mut c);
+    into_outcome(c, false)
 }
 
 // ------------------------------------------------------------------------------------ refv (reference verifier tie)
@@ -2517,6 +2524,19 @@ fn gen_for(g: &mut Gen, rng: &mut Rng, b: &Base, tier: Tier, small: bool, others
             "01fe", "01fdff", "0180ffffffffffffff", "0140ffffffffffff", "0104aa", "02", "ff", "0110", "01f0ffffff", "0100000000000000ff00",
         ] {
             g.case("gkr", b, name, "c", &format!("r{}:{}:{}", gk.off, gk.len, tail), true);
+        }
+    }
+    // 5c'. GKR proof with a HUGE claimed byte count followed by 0 / 1 / 255 / 256 / 257 / 1000 further bytes: the count
+    // is a vint64 read by `read_many::<u8>`; a streaming reader (`ReadAdapter`) cannot know before the end of its
+    // source that fewer bytes follow, so nothing may be reserved or trusted on the strength of the count
+    if let Some(gk) = comp("gkr") {
+        for count in [1u64 << 63, (1u64 << 63) + 1, u64::MAX, (1u64 << 63) - 1, 1u64 << 62, 1u64 << 48, 1u64 << 40, 1u64 << 32, 1u64 << 24] {
+            for tail in [0usize, 1, 255, 256, 257, 1000] {
+                let mut blk = vec![1u8, 0u8];
+                blk.extend_from_slice(&count.to_le_bytes());
+                blk.extend((0..tail).map(|i| (i % 251) as u8));
+                g.case("gkr-huge", b, name, "c", &format!("r{}:{}:{}", gk.off, gk.len, hex(&blk)), true);
+            }
         }
     }
     // 5d. components of another valid proof of a different shape
